@@ -599,6 +599,90 @@ end Pipeline
 section PipelineArrays
 open Hdl21.RoundTrip Hdl21.ExportWF Hdl21.ModulePipe Hdl21.ArrayPass
 
+/-- the elements of one array: called `nm a 0 … nm a (n-1)`, each with the array's port names in the array's order -/
+theorem expandArr_names (ctx : PRef → Option (List (String × Nat))) (nm : String → Nat → String) (a : HArr) (els : List HInst)
+    (h : expandArr ctx nm a = .ok els) :
+    els.map (·.name) = (List.range a.n).map (nm a.name) ∧ ∀ r ∈ els, r.conns.map (·.1) = a.conns.map (·.1) := by
+  unfold expandArr at h
+  cases hc : ctx a.ref with
+  | none => simp [hc] at h
+  | some ports =>
+    simp only [hc] at h
+    cases hx : ArrayPass.expand (ports.map fun pw => (pw.1, ArrayPass.Port.sig pw.2)) a.n (a.conns.map fun pc => (pc.1, ArrayPass.AConn.sig pc.2)) with
+    | error x => simp [hx] at h
+    | ok r =>
+      simp only [hx] at h
+      obtain ⟨_, hlen, hel⟩ := array_expansion _ a.n _ r hx
+      constructor
+      · rw [mkElems_names a nm 0 r els h, hlen]
+        apply List.map_congr_left
+        intro j _; simp
+      · intro ri hri
+        obtain ⟨es, hes, hcs⟩ := mkElems_conns a nm 0 r els h ri hri
+        obtain ⟨k, hk⟩ := List.getElem?_of_mem hes
+        have hkn : k < a.n := by
+          rw [← hlen]
+          rcases Nat.lt_or_ge k r.length with hh | hh
+          · exact hh
+          · rw [List.getElem?_eq_none hh] at hk; cases hk
+        obtain ⟨es', hes', hl, hper⟩ := hel k hkn
+        rw [hk] at hes'; injection hes' with hes'; subst hes'
+        rw [forall2_map_eq (f := fun (pe : String × ArrayPass.AElem) => pe.1) (g := fun (pc : String × SConn) => pc.1)
+          (fun a b hr => hr.1) (elemSConns_spec es ri.conns hcs)]
+        apply List.ext_getElem?
+        intro i
+        simp only [List.getElem?_map]
+        cases hci : a.conns[i]? with
+        | none =>
+          have : es[i]? = none := by
+            rw [List.getElem?_eq_none_iff] at hci ⊢
+            simp at hl; omega
+          simp [this]
+        | some pc =>
+          have hci' : (a.conns.map fun pc => (pc.1, ArrayPass.AConn.sig pc.2))[i]? = some (pc.1, ArrayPass.AConn.sig pc.2) := by
+            rw [List.getElem?_map, hci]; rfl
+          obtain ⟨e, he, _⟩ := hper i pc.1 _ hci'
+          simp [he]
+
+theorem flattenArrays_names (ctx : PRef → Option (List (String × Nat))) (nm : String → Nat → String) :
+    ∀ (arrs : List HArr) (h h' : HModule), flattenArrays ctx nm arrs h = .ok h' →
+      h'.instances.map (·.name) = h.instances.map (·.name) ++ arrs.flatMap (fun a => (List.range a.n).map (nm a.name)) ∧
+      ∀ r ∈ h'.instances, r ∈ h.instances ∨ ∃ a ∈ arrs, r.conns.map (·.1) = a.conns.map (·.1)
+  | [], h, h', hf => by
+    rw [flattenArrays] at hf; injection hf with hf; subst hf
+    exact ⟨by simp, fun r hr => Or.inl hr⟩
+  | a :: rest, h, h', hf => by
+    rw [flattenArrays] at hf
+    cases he : expandArr ctx nm a with
+    | error x => simp [he] at hf
+    | ok els =>
+      simp only [he] at hf
+      obtain ⟨h1, h2⟩ := flattenArrays_names ctx nm rest _ h' hf
+      obtain ⟨n1, n2⟩ := expandArr_names ctx nm a els he
+      refine ⟨by rw [h1]; simp [List.map_append, n1, List.append_assoc], ?_⟩
+      intro r hr
+      rcases h2 r hr with hh | ⟨b, hb, hbc⟩
+      · rcases List.mem_append.mp hh with hh | hh
+        · exact Or.inl hh
+        · exact Or.inr ⟨a, List.mem_cons_self .., n2 r hh⟩
+      · exact Or.inr ⟨b, List.mem_cons_of_mem _ hb, hbc⟩
+
+/-- **The namespace after `ArrayFlattener` is a namespace** when the names the pass hands out are fresh and distinct — which is what
+    C05 proves of them (`inventAll_spec`: distinct from every name in the module and from each other) — and the arrays' own
+    connections are a dict: the hypothesis of `array_elements_read_their_bits`, discharged from naming-level facts. -/
+theorem flattened_namespace_ok (ctx : PRef → Option (List (String × Nat))) (nm : String → Nat → String) (arrs : List HArr) (h h' : HModule)
+    (hm : ModOK ctx h) (hac : ∀ a ∈ arrs, (a.conns.map (·.1)).Nodup)
+    (hnames : (h.instances.map (·.name) ++ arrs.reverse.flatMap (fun a => (List.range a.n).map (nm a.name))).Nodup)
+    (hf : flattenArrays ctx nm arrs.reverse h = .ok h') : ModOK ctx h' := by
+  obtain ⟨m1, m2, m3, _, m5, m6⟩ := hm
+  obtain ⟨_, hsig, hport, _, _⟩ := flattenArrays_spec ctx nm arrs.reverse h h' hf
+  obtain ⟨n1, n2⟩ := flattenArrays_names ctx nm arrs.reverse h h' hf
+  refine ⟨by rw [hsig, hport]; exact m1, by rw [hsig, hport]; exact m2, by rw [hport]; exact m3, by rw [n1]; exact hnames, ?_, m6⟩
+  intro r hr
+  rcases n2 r hr with hh | ⟨a, ha, hc⟩
+  · exact m5 r hh
+  · rw [hc]; exact hac a (List.mem_reverse.mp ha)
+
 /-- **Element `k` of an instance array ends on its bits.** An F1 module that also has instance arrays goes through the default
     pass list with `ArrayFlattener` in its place (`pipelineA`; the pass itself is the `ArrayPass` model that is compared with the real
     pass by the `arraypass` stream).  If a module comes back — and the namespace after flattening is a namespace (element names
@@ -689,6 +773,28 @@ theorem array_elements_read_their_bits (fuel : Nat) (ctx : PRef → Option (List
                     intro b hb
                     rw [hread, List.getElem?_map, hbits b hb]
                   · simp [h2] at helem
+/-- the same with the naming-level hypothesis: the module's namespace is a namespace, the arrays' connections are dicts, and the
+    names handed to the elements are fresh and distinct (C05) -/
+theorem array_elements_read_their_bits_of_fresh_names (fuel : Nat) (ctx : PRef → Option (List (String × Nat))) (nm : String → Nat → String)
+    (arrs : List HArr) (h : HModule) (p : PModule) (hm : ModOK ctx h) (hac : ∀ a ∈ arrs, (a.conns.map (·.1)).Nodup)
+    (hnames : (h.instances.map (·.name) ++ arrs.reverse.flatMap (fun a => (List.range a.n).map (nm a.name))).Nodup)
+    (hp : pipelineA fuel ctx nm arrs h = .ok p) :
+    ∀ a ∈ arrs, ∀ ports, ctx a.ref = some ports → ∀ k, k < a.n →
+      ∃ pi ∈ p.instances, pi.name = nm a.name k ∧ pi.ref = a.ref ∧
+        ∀ (j : Nat) pn c, a.conns[j]? = some (pn, c) → ∃ t w bs, pi.conns[j]? = some (pn, t) ∧ lookup pn ports = some w ∧ c.denote = .ok bs ∧
+          ((bs.length = w ∧ readTarget (sigList h) t = bs.map bitNat) ∨
+           (bs.length = a.n * w ∧ ∀ b, b < w → (readTarget (sigList h) t)[b]? = (bs[k * w + b]?).map bitNat)) :=
+  array_elements_read_their_bits fuel ctx nm arrs h p (fun h' hf => flattened_namespace_ok ctx nm arrs h h' hm hac hnames hf) hp
+
+/-- non-vacuity: a three-element array on a six-bit bus with a shared clock; element 1 reads bits 2 and 3 -/
+example :
+    (pipelineA 40 (fun _ => some [("d", 2), ("ck", 1)]) (fun a k => s!"{a}_{k}")
+      [⟨"arr", .ext "d" "E", [], 3, [("d", .sig "bus" 6), ("ck", .sig "clk" 1)]⟩]
+      ⟨"T", [⟨"bus", 6, none⟩, ⟨"clk", 1, none⟩], [], []⟩).toOption.map
+      (fun p => p.instances.map fun i => i.conns.map fun pc => (pc.1, readTarget p.signals pc.2)) =
+    some [[("d", [("bus", 0), ("bus", 1)]), ("ck", [("clk", 0)])],
+          [("d", [("bus", 2), ("bus", 3)]), ("ck", [("clk", 0)])],
+          [("d", [("bus", 4), ("bus", 5)]), ("ck", [("clk", 0)])]] := by decide +kernel
 end PipelineArrays
 
 /-! ## … and for every module of an F1 design -/
